@@ -36,6 +36,11 @@ class NumEval:
                 for j, q in enumerate(pt["pats"]):
                     if q.get("k") == "PBind" and q.get("id") == vid and j < len(l["init"]["elems"]):
                         return l["init"]["elems"][j]
+            if pt.get("k") == "PTuple":
+                # `let (left, right) = helper(seg);`: component j of the initialiser's (tuple) value
+                for j, q in enumerate(pt["pats"]):
+                    if q.get("k") == "PBind" and q.get("id") == vid:
+                        return {"k": "_Proj", "e": l["init"], "j": j}
         return None
 
     def ev(self, e, depth=0):
@@ -47,6 +52,13 @@ class NumEval:
         k = e.get("k")
         if k in ("Cast", "AddrOf", "DropTemps"):
             return self.ev(e["e"], depth + 1)
+        if k == "Tuple":
+            return tuple(self.ev(x, depth + 1) for x in e["elems"])
+        if k == "_Proj":
+            v = self.ev(e["e"], depth + 1)
+            if isinstance(v, tuple) and e["j"] < len(v):
+                return v[e["j"]]
+            raise _NoEval("projection of a non-tuple")
         if k == "Unary":
             x = self.ev(e["e"], depth + 1)
             if e["op"] == "Deref":
@@ -188,7 +200,12 @@ def r_sol_errmap(rep, f):
         # (2) t outside [min, max] of the span ends <=> OutOfRange, for both orientations of the span: the guard that controls
         #     the early OutOfRange return is evaluated at t in {below, lower end, inside, upper end, above}
         roles = _span_roles(b["body"])
-        guards = [(n_, g) for n_, g in _guards_of(b, lambda z: z.get("k") == "Return" and tast.contains(z, lambda q: (q.get("def") or "").startswith(ERRI + "OutOfRange"))) if g]
+        # the error may be built by a local closure (`let out_of_range = || Error::..OutOfRange {..}; .. return Err(out_of_range())`)
+        oor = lambda q: (q.get("def") or "").startswith(ERRI + "OutOfRange")
+        makers = {l["pat"]["id"] for l in tast.find(b["body"], lambda z: z.get("k") == "Let" and z["pat"].get("k") == "PBind" and (z.get("init") or {}).get("k") == "Closure"
+                                                    and tast.contains(z["init"]["body"], oor))}
+        builds_oor = lambda z: tast.contains(z, lambda q: oor(q) or (q.get("k") == "Call" and (q.get("f") or {}).get("k") == "Path" and (q.get("f") or {}).get("id") in makers))
+        guards = [(n_, g) for n_, g in _guards_of(b, lambda z: z.get("k") == "Return" and builds_oor(z)) if g]
         if not guards:
             probs.append("no early return of OutOfRange guarded by a range test of t")
         for node, gl in guards[:1]:
@@ -834,6 +851,15 @@ def r_seg_per_query(rep, f):
                 continue
             n += 1
             key = "R-SEG-LOOKUP:%s:per-query:%d" % (fn.split("::")[-1], n)
+            if kind == "closure":
+                # `self.find_segment(t).map(|seg| { .. seg.interpolate(t, ..) .. })`: the closure receives the segment straight
+                # from a lookup made for this query; the lookup is judged in the scope that contains the adaptor call
+                host = [mc for mc in tast.find(b["body"], lambda z: z.get("k") == "MethodCall" and any(a_.get("k") == "Closure" and a_["body"] is sc for a_ in z["args"])
+                                               and tast.contains(z["recv"], lambda q: q.get("k") == "MethodCall" and q.get("def") in LOOK))]
+                if host:
+                    outer = owner(host[0])
+                    if outer is not None:
+                        sc = outer[1]
             looks = [c for c in tast.find(sc, lambda z: z.get("k") == "MethodCall" and z.get("def") in LOOK) if owner(c) and owner(c)[1] is sc]
 
             def unconditional(c):
@@ -870,20 +896,29 @@ def r_seg_lookup(rep, f):
             rep.inconc("R-SEG-LOOKUP", key, "not found")
             continue
         rep.fn(fn)
-        loops = tast.find(b["body"], lambda z: z.get("k") == "For")
         tested = 0
         bad = None
         unknown = None
-        preds = []
-        for lp in loops:
-            for i_ in tast.find(lp["body"], lambda z: z.get("k") == "If" and tast.contains(z["then"], lambda q: q.get("k") == "Return")):
-                preds.append(i_["cond"])
-        # iterator form: segs.iter().find(|seg| <membership>) / position / filter
-        for c_ in tast.find(b["body"], lambda z: z.get("k") == "MethodCall" and z.get("name") in ("find", "position", "rposition", "filter", "find_map") and z["args"] and z["args"][0].get("k") == "Closure"):
-            preds.append(c_["args"][0]["body"])
-        for cond_ in preds:
+        preds = []     # (predicate expression, body of the function it occurs in)
+
+        def gather(bb, depth=0):
+            for lp in tast.find(bb["body"], lambda z: z.get("k") == "For"):
+                for i_ in tast.find(lp["body"], lambda z: z.get("k") == "If" and tast.contains(z["then"], lambda q: q.get("k") == "Return")):
+                    preds.append((i_["cond"], bb))
+            # iterator form: segs.iter().find(|seg| <membership>) / position / filter
+            for c_ in tast.find(bb["body"], lambda z: z.get("k") == "MethodCall" and z.get("name") in ("find", "position", "rposition", "filter", "find_map") and z["args"] and z["args"][0].get("k") == "Closure"):
+                preds.append((c_["args"][0]["body"], bb))
+            # the scan may live in a private helper of the same type (`self.covering_segment(t)`)
+            if depth < 2:
+                for c_ in tast.find(bb["body"], lambda z: z.get("k") in ("Call", "MethodCall") and (z.get("def") or "").startswith(CONT) and (z.get("def") or "") in f.bodies
+                                    and (z.get("def") or "") not in (CONT + "find_segment", fn) and f.inlinable(z.get("def") or "")):
+                    if "DenseSegment" in (c_.get("ty") or ""):
+                        gather(f.bodies[c_["def"]], depth + 1)
+        gather(b)
+        for cond_, owner in preds:
             if True:
                 i_ = {"cond": cond_}
+                b_eval = owner
                 for xold, h in ((0.0, 1.0), (1.0, -1.0)):
                     for tv, want in ((-1.0, False), (0.0, True), (0.5, True), (1.0, True), (2.0, False)):
                         def leaf(e, xold=xold, h=h, tv=tv):
@@ -894,9 +929,9 @@ def r_seg_lookup(rep, f):
                             if e.get("k") == "Path" and e.get("res") == "local" and e.get("id") in pids:
                                 return tv
                             return None
-                        pids = {p_["id"] for p_ in b.get("params", []) if p_.get("k") == "PBind" and p_.get("ty") == "f64"}
+                        pids = {p_["id"] for p_ in b_eval.get("params", []) if p_.get("k") == "PBind" and p_.get("ty") == "f64"}
                         try:
-                            v = bool(NumEval(b["body"], leaf).ev(i_["cond"]))
+                            v = bool(NumEval(b_eval["body"], leaf).ev(i_["cond"]))
                         except _NoEval as ex:
                             unknown = "membership test not evaluated (%s)" % ex
                             continue
